@@ -23,7 +23,10 @@
 (***************************************************************************)
 EXTENDS Integers, Sequences, FiniteSets, TLC, Json, SequencesExt, FiniteSetsExt
 
-CONSTANTS MaxGlyphs, MaxLayersPerGlyph, MaxLayers, NClasses, Attrs   \* Attrs e.g. {"none", "A", "B"}
+CONSTANTS MaxGlyphs, MaxLayersPerGlyph, MaxLayers, NClasses, Attrs,  \* Attrs e.g. {"none", "A", "B"}
+          MoveSingletons   \* TRUE = the code as it is: EVERY group, also a glyph that shares nothing, is re-appended to
+                           \* the glyph order and has its stored glyph id refreshed.  FALSE (only groups that really
+                           \* share are moved) is the tempting optimisation; TLC shows what it breaks (negative config)
 
 Layer == [c : 1..NClasses, a : Attrs]
 VARIABLES src,      \* input-order sequence of glyphs; glyph = [rank, layers]; rank = position in sorted name order
@@ -36,8 +39,10 @@ VARIABLES src,      \* input-order sequence of glyphs; glyph = [rank, layers]; r
           defs,     \* set of path names living in <defs>
           loc,      \* path name -> "unplaced" | "defs" | <<g, k>>  (where the <path> with that outline is)
           standin,  \* path names whose glyph_elements entry was replaced by a stand-in <use>
-          tattr     \* path name -> paint attribute currently on the <path> element
-vars == <<src, phase, gi, li, donorOf, reuse, part, body, defs, loc, standin, tattr>>
+          tattr,    \* path name -> paint attribute currently on the <path> element
+          order,    \* the font's glyph order restricted to colour glyphs (sequence of input indices)
+          gid       \* glyph -> the glyph id STORED in its ColorGlyph (names <g id=glyphN>, gives the document ranges)
+vars == <<src, phase, gi, li, donorOf, reuse, part, body, defs, loc, standin, tattr, order, gid>>
 
 NG == Len(src)
 Names == {<<g, i>> : g \in 1..NG, i \in 1..MaxLayersPerGlyph} \cap {n \in (1..NG) \X (1..MaxLayersPerGlyph) : n[2] <= Len(src[n[1]].layers)}
@@ -54,12 +59,13 @@ Init == /\ \E n \in 1..MaxGlyphs : \E ranks \in Ranks(n) :
         /\ donorOf = << >> /\ reuse = << >> /\ part = [g \in 1..Len(src) |-> g]
         /\ body = [g \in 1..Len(src) |-> << >>] /\ defs = {} /\ standin = {}
         /\ loc = << >> /\ tattr = << >>
+        /\ order = [g \in 1..Len(src) |-> g] /\ gid = [g \in 1..Len(src) |-> g]      \* input order
 
 Unplaced == [w |-> "unplaced", g |-> 0, k |-> 0]
 InDefs == [w |-> "defs", g |-> 0, k |-> 0]
 Put(f, k, v) == [x \in DOMAIN f \cup {k} |-> IF x = k THEN v ELSE f[x]]
-NextCursor(order) ==   \* advance (gi, li) through glyphs taken in `order` (a sequence of input indices); gi indexes order
-    IF li < Len(src[order[gi]].layers) THEN <<gi, li + 1>> ELSE <<gi + 1, 1>>
+NextCursor(ord) ==   \* advance (gi, li) through glyphs taken in `order` (a sequence of input indices); gi indexes order
+    IF li < Len(src[ord[gi]].layers) THEN <<gi, li + 1>> ELSE <<gi + 1, 1>>
 
 (* ---- Group: input order *)
 GroupLayer ==
@@ -73,11 +79,11 @@ GroupLayer ==
                /\ UNCHANGED donorOf
           ELSE /\ donorOf' = Put(donorOf, c, n) /\ UNCHANGED <<reuse, part>>
     /\ LET nc == NextCursor([g \in 1..NG |-> g]) IN gi' = nc[1] /\ li' = nc[2]
-    /\ UNCHANGED <<src, phase, body, defs, standin>>
+    /\ UNCHANGED <<src, phase, body, defs, standin, order, gid>>
 GroupDone ==
     /\ phase = "group" /\ gi > NG
-    /\ phase' = "place" /\ gi' = 1 /\ li' = 1
-    /\ UNCHANGED <<src, donorOf, reuse, part, body, defs, loc, standin, tattr>>
+    /\ phase' = "reorder" /\ gi' = 1 /\ li' = 1
+    /\ UNCHANGED <<src, donorOf, reuse, part, body, defs, loc, standin, tattr, order, gid>>
 
 (* ---- Reorder: documents = groups; a group is named by the sorted tuple of its member ranks *)
 GroupOf(g) == {h \in 1..NG : part[h] = part[g]}
@@ -87,8 +93,21 @@ DocOrder == SortSeq(SetToSeq({GroupOf(g) : g \in 1..NG}), LAMBDA A, B : MinRank(
 PlaceOrder ==  \* all glyphs: documents in order, members by rank
     LET RECURSIVE Cat(_) Cat(k) == IF k = 0 THEN << >> ELSE Cat(k - 1) \o SortSeq(SetToSeq(DocOrder[k]), LAMBDA x, y : src[x].rank < src[y].rank)
     IN Cat(Len(DocOrder))
-\* first colour glyph id is 2 + #blank glyphs; here glyph ids are relative: position in PlaceOrder
-Gid(g) == CHOOSE k \in 1..NG : PlaceOrder[k] = g
+\* first colour glyph id is 2 + #blank glyphs; here glyph ids are relative: position among the colour glyphs
+\* (_ensure_groups_grouped_in_glyph_order): glyphs of the groups that move are taken out of the order and appended group
+\* by group; ONLY those get their stored glyph id rewritten
+MovedGroups == SelectSeq(DocOrder, LAMBDA G : MoveSingletons \/ Cardinality(G) > 1)
+Appended == LET RECURSIVE Cat(_) Cat(k) == IF k = 0 THEN << >>
+                                            ELSE Cat(k - 1) \o SortSeq(SetToSeq(MovedGroups[k]), LAMBDA x, y : src[x].rank < src[y].rank)
+            IN Cat(Len(MovedGroups))
+Reshuffle ==
+    /\ phase = "reorder"
+    /\ LET moving == {Appended[k] : k \in DOMAIN Appended}
+           keep == SelectSeq(order, LAMBDA g : g \notin moving)
+       IN /\ order' = keep \o Appended
+          /\ gid' = [g \in DOMAIN gid |-> IF g \in moving THEN Len(keep) + (CHOOSE k \in DOMAIN Appended : Appended[k] = g) ELSE gid[g]]
+    /\ phase' = "place"
+    /\ UNCHANGED <<src, gi, li, donorOf, reuse, part, body, defs, loc, standin, tattr>>
 
 (* ---- Place *)
 UseItem(href, a) == [t |-> "use", ref |-> href, a |-> a]
@@ -123,10 +142,10 @@ PlaceLayer ==
                     /\ tattr' = [tattr EXCEPT ![n] = paint]
             /\ UNCHANGED <<defs, standin, phase>>
     /\ LET nc == NextCursor(PlaceOrder) IN gi' = nc[1] /\ li' = nc[2]
-    /\ UNCHANGED <<src, donorOf, reuse, part>>
+    /\ UNCHANGED <<src, donorOf, reuse, part, order, gid>>
 PlaceDone ==
     /\ phase = "place" /\ gi > NG
-    /\ phase' = "tidy" /\ UNCHANGED <<src, gi, li, donorOf, reuse, part, body, defs, loc, standin, tattr>>
+    /\ phase' = "tidy" /\ UNCHANGED <<src, gi, li, donorOf, reuse, part, body, defs, loc, standin, tattr, order, gid>>
 
 (* ---- Tidy: an attribute carried by every <use> of a target moves to the target - only when the target lives in
    <defs>.  (Without that condition TLC finds: one glyph, layers <<[c1, none], [c1, A]>>: the black donor <path> inside
@@ -139,9 +158,9 @@ Tidy ==
        IN /\ tattr' = [n \in DOMAIN tattr |-> IF n \in movable THEN body[(CHOOSE u \in UsesOf(n) : TRUE)[1]][(CHOOSE u \in UsesOf(n) : TRUE)[2]].a ELSE tattr[n]]
           /\ body' = [g \in DOMAIN body |-> [k \in DOMAIN body[g] |->
                         IF body[g][k].t = "use" /\ body[g][k].ref \in movable THEN [body[g][k] EXCEPT !.a = "none"] ELSE body[g][k]]]
-    /\ phase' = "done" /\ UNCHANGED <<src, gi, li, donorOf, reuse, part, defs, loc, standin>>
+    /\ phase' = "done" /\ UNCHANGED <<src, gi, li, donorOf, reuse, part, defs, loc, standin, order, gid>>
 
-Next == GroupLayer \/ GroupDone \/ PlaceLayer \/ PlaceDone \/ Tidy
+Next == GroupLayer \/ GroupDone \/ Reshuffle \/ PlaceLayer \/ PlaceDone \/ Tidy
 Spec == Init /\ [][Next]_vars
 
 -----------------------------------------------------------------------------
@@ -164,11 +183,14 @@ NoCrossGlyphRef == \A g \in DOMAIN body : \A k \in DOMAIN body[g] :
 HrefsClosed == Done => \A g \in 1..NG : \A k \in DOMAIN body[g] :
     body[g][k].t = "use" => /\ loc[body[g][k].ref].w # "unplaced"
                             /\ part[body[g][k].ref[1]] = part[g]
-\* C07: documents cover disjoint, contiguous glyph-id ranges in increasing order
+\* C04 / C07: the id stored in a colour glyph (it names the <g id=glyphN> element and gives its document's record) is
+\* the glyph's position in the font's glyph order, so that cmap / GSUB, which follow the order, reach the artwork
+GidIsPosition == phase \in {"place", "tidy", "done"} => \A g \in 1..NG : order[gid[g]] = g
+\* C07: documents (records [min stored id, max stored id]) cover disjoint, contiguous ranges, each exactly its members
 DocRanges == Done => \A i \in DOMAIN DocOrder :
-    LET ids == {Gid(g) : g \in DocOrder[i]} IN
+    LET ids == {gid[g] : g \in DocOrder[i]} IN
     /\ Max(ids) - Min(ids) + 1 = Cardinality(ids)
-    /\ \A j \in DOMAIN DocOrder : i < j => Max(ids) < Min({Gid(g) : g \in DocOrder[j]})
+    /\ \A j \in DOMAIN DocOrder : i # j => (Max(ids) < Min({gid[g] : g \in DocOrder[j]}) \/ Max({gid[g] : g \in DocOrder[j]}) < Min(ids))
 \* every path outline lives in exactly one place
 PlacedOnce == Done => \A n \in Names : n \notin DOMAIN reuse => loc[n].w # "unplaced"
 
@@ -177,6 +199,6 @@ Export == (Done \/ phase = "error") =>
     PrintT(<<"VERIF", ToJson([src |-> src, phase |-> phase,
         docs |-> [i \in DOMAIN DocOrder |-> SortSeq(SetToSeq(DocOrder[i]), LAMBDA x, y : src[x].rank < src[y].rank)],
         body |-> [g \in DOMAIN body |-> [k \in DOMAIN body[g] |-> ItemJ(body[g][k])]],
-        defs |-> SetToSeq(defs),
+        defs |-> SetToSeq(defs), order |-> order, gid |-> gid,
         tattr |-> [n \in {x \in DOMAIN tattr : tattr[x] # "none"} |-> tattr[n]]])>>)
 =============================================================================
